@@ -204,3 +204,131 @@ def user_callbacks_under_lock(r, fb, la, scope, locks_of_interest, exempt=None):
                     r.fail(f, e, "invoke %s" % tgt, "std::function %s invoked while holding %s" % (tgt, ", ".join(sorted(held))))
                 else:
                     r.ok("%s invokes %s with no engine/transport lock" % (short(f.name), tgt))
+
+
+# ------------------------------------------------------------------ helpers shared by the transport properties
+
+def lambda_assigned_to(fb, cg, field_suffix, in_function=None):
+    """the lambda Function assigned to the std::function member whose qualified name ends with field_suffix"""
+    out = []
+    for name, role in cg.lambda_role.items():
+        if role.get("role") == "assigned" and role.get("field") and role["field"].endswith(field_suffix):
+            if in_function and role.get("in") != in_function:
+                continue
+            out += fb.by_name.get(name, [])
+    if len(out) != 1:
+        raise AnalysisBroken("expected exactly one lambda assigned to …%s, found %d" % (field_suffix, len(out)))
+    return out[0]
+
+
+def same_section(f, la, e1, e2, mutex):
+    """the mutex is held continuously on every path from element e1 to element e2 (no release / wait between).
+    Returns (True, None) or (False, witness)."""
+    def unheld(x):
+        return x is not e1 and not la.holds(f, x, mutex)
+
+    def is_wait(x):
+        return x.kind == "stmt" and x.node.get("k") == "mcall" and x.node.get("callee", "").startswith("std::condition_variable") \
+            and last(x.node.get("callee", "")) in CV_WAIT
+    if not la.holds(f, e1, mutex) and not (e1.kind == "stmt" and e1.node.get("k") == "decl"):
+        return False, "lock not held at the first event"
+    reach_cache = {}
+
+    def reaches_e2(x):
+        k = (x.block.id, x.idx)
+        if k not in reach_cache:
+            reach_cache[k] = search(f, x, lambda y: y is e2, eh=False) is not None
+        return reach_cache[k]
+    w = search(f, e1, lambda x: (unheld(x) or is_wait(x)) and reaches_e2(x), stop=lambda x: x is e2, eh=False)
+    if w is None:
+        return True, None
+    return False, witness_str(f, w)
+
+
+def elems_where(f, pred):
+    return [e for e in f.stmts() if pred(e.node)]
+
+
+def calls_to(f, names):
+    """stmt elements that are calls to one of the qualified names (exact or by last component if name starts with '~')"""
+    out = []
+    for e in f.stmts():
+        n = e.node
+        if n.get("k") in ("call", "mcall", "opcall"):
+            c = n.get("callee", "")
+            for nm in ([names] if isinstance(names, str) else names):
+                if nm.startswith("~"):
+                    if last(c) == nm[1:]:
+                        out.append(e)
+                        break
+                elif c == nm:
+                    out.append(e)
+                    break
+    return out
+
+
+def member_calls_on(f, field, methods=None):
+    """member calls whose receiver is (something ending in) the field"""
+    out = []
+    for e in f.stmts():
+        n = e.node
+        if n.get("k") == "mcall" and field_of(n.get("obj")) == field:
+            if methods is None or last(n.get("callee", "")) in methods:
+                out.append(e)
+        elif n.get("k") == "opcall" and n.get("memberop") and n["args"] and field_of(n["args"][0]) == field:
+            if methods is None or ("operator" + n["op"]) in methods:
+                out.append(e)
+    return out
+
+
+def field_writes(f, field):
+    """elements that assign / mutate the field inside f"""
+    out = []
+    for n in f.nodes.values():
+        if n.get("k") == "member" and n.get("n") == field:
+            k = access.classify(f, n)
+            if k in ("write", "rw"):
+                e = f.elem_for(n)
+                if e is not None:
+                    out.append((e, n, k))
+    return out
+
+
+def assigned_value(f, member_node):
+    """RHS of the assignment whose LHS is member_node (or None)"""
+    pid = f.parent.get(member_node["id"])
+    if pid is None:
+        return None
+    p = f.nodes[pid]
+    if p.get("k") == "bin" and p["op"] == "=" and p["lhs"] is member_node:
+        return p["rhs"]
+    if p.get("k") == "opcall" and p.get("op") == "=" and p["args"] and p["args"][0] is member_node:
+        return p["args"][1]
+    return None
+
+
+def fn_invocations(f):
+    """std::function invocations in f: [(elem, callee-object node)]"""
+    out = []
+    for e in f.stmts():
+        n = e.node
+        if n.get("k") == "opcall" and n.get("op") == "()" and n.get("callee") == "std::function::operator()":
+            out.append((e, n["args"][0]))
+    return out
+
+
+def returns(f):
+    return [e for e in f.stmts() if e.node.get("k") == "ret"]
+
+
+def mentions_enum(n, enum_name):
+    return any(x.get("k") == "enum" and x["n"] == enum_name for x in walk(n))
+
+
+def cmp_parts(n):
+    """(op, lhs, rhs) of a built-in or overloaded comparison, else None"""
+    if n.get("k") == "bin" and n["op"] in ("==", "!=", "<", ">", "<=", ">="):
+        return n["op"], n["lhs"], n["rhs"]
+    if n.get("k") == "opcall" and n.get("op") in ("==", "!=", "<", ">", "<=", ">=") and len(n["args"]) == 2:
+        return n["op"], n["args"][0], n["args"][1]
+    return None
